@@ -102,7 +102,7 @@ def check_naming_functions(sm: SourceModel, res, schema=None):
     for fname in ('cap_first', 'convert_to_xml_class_name', 'convert_to_xsd_class_name'):
         if fname not in core.functions:
             raise AnalysisError(f"anchor util.core.{fname} vanished")
-    folder = Folder({k: v.node for k, v in core.functions.items()})
+    folder = Folder({k: v.node for k, v in core.functions.items()}, module_tree=core.tree)
     if schema is None:
         from ..xsdmodel import Schema
         schema = Schema()
